@@ -119,6 +119,7 @@ pub fn run(o: &Opts) -> Report {
         snap_i: usize,
         lower_i: Vec<usize>,
         full_snap: String,
+        free_res: String,
         base_lower: Vec<String>,
         opname: &'static str,
         n_calls: i64,
@@ -149,7 +150,7 @@ pub fn run(o: &Opts) -> Report {
             let mut op = gen_op(&mut rng, &ts, &snap, &cfg);
             let want_composite = si % 4 != 0;
             for _ in 0..80 {
-                let composite = matches!(op.name, "create_dir_all" | "remove_dir_all" | "copy_file" | "move_file" | "copy_dir" | "move_dir" | "walk" | "read_to_string");
+                let composite = matches!(op.name, "create_dir_all" | "remove_dir_all" | "copy_file" | "move_file" | "copy_dir" | "move_dir" | "walk" | "read_to_string" | "read_dir" | "remove_dir" | "read");
                 let mutator = matches!(op.name, "append" | "write" | "remove_dir" | "remove_file" | "create_dir");
                 if (want_composite && composite) || (!want_composite && (mutator || composite)) {
                     break;
@@ -195,6 +196,7 @@ pub fn run(o: &Opts) -> Report {
                     snap_i,
                     lower_i,
                     full_snap: full_snap.clone(),
+                    free_res: free_res.clone(),
                     base_lower: base_lower.clone(),
                     opname: op.name,
                     n_calls,
@@ -236,6 +238,20 @@ pub fn run(o: &Opts) -> Report {
                 &p.full_snap,
             ));
             continue;
+        }
+        // an observer that reports success although one of its underlying calls failed must still
+        // return the full, fault-free answer (a partial listing / partial walk is a wrong effect)
+        let observer = matches!(p.opname, "read_dir" | "walk" | "read" | "read_to_string" | "exists" | "metadata" | "is_file" | "is_dir");
+        if fired && ok && !yields_err && observer {
+            let norm = |s: &str| {
+                let mut v: Vec<&str> = s.split(' ').collect();
+                v.sort();
+                v.join(" ")
+            };
+            if norm(res) != norm(&p.free_res) {
+                rep.fail(mk("prop", format!("{}:{}:success-with-partial-answer", class, p.opname), format!("an underlying call failed, the observer reported success with {} while the fault-free answer is {}", res, p.free_res), res, &p.free_res));
+                continue;
+            }
         }
         if fired && ok && !yields_err && p.opname != "walk" {
             // success although a call failed: only acceptable if the effect is complete (checked
